@@ -64,6 +64,8 @@ func VerifC04_AuthenticReply() {
 	ctx, cancel := context.WithCancel(context.Background())
 	sid, seq := vU32(), vU32()
 	encrypted := vBool()
+	authenticated := vBool() // the authenticated flag of the datagram (the trailer is present either way)
+	cut := []int{0, 1, 16}[vChoice(3)] // bytes missing from the end of the AuthCode (16: all of it)
 	blocks := 1 + vChoice(vParam("maxblocks", 2))
 	var iv, pt, body []byte
 	vs.ft.reply = func(attempt int, req []byte) ([]byte, error) {
@@ -78,7 +80,10 @@ func VerifC04_AuthenticReply() {
 			body = vBytes(vLen(0, 16*blocks))
 			payload = body
 		}
-		flags := byte(0x40)
+		flags := byte(0x00)
+		if authenticated {
+			flags |= 0x40
+		}
 		if encrypted {
 			flags |= 0x80
 		}
@@ -93,12 +98,17 @@ func VerifC04_AuthenticReply() {
 		}
 		d = append(d, byte(q), 0x07)
 		mac := refHMAC(alg, vs.k1, d[4:])
-		d = append(d, mac[:macLen]...)
+		if cut > macLen {
+			cut = macLen
+		}
+		d = append(d, mac[:macLen-cut]...)
 		return d[:len(d):len(d)], nil
 	}
 	code, err := vs.sess.SendCommand(ctx, cmd)
 	if err == nil {
 		vReached("?accepted")
+		vAssert(authenticated, "c04-accepted-has-the-authenticated-flag")
+		vAssert(cut == 0, "c04-accepted-has-a-complete-authcode")
 		vAssert(sid == vs.sess.LocalID, "c04-accepted-is-addressed-to-this-session")
 		vAssert(encrypted, "c04-accepted-is-encrypted")
 		if encrypted {
